@@ -26,6 +26,7 @@ Known (findings/C07): a field access / tuple index standing to the right of an i
 """
 import itertools
 import os
+import re
 import struct
 
 from .. import build
@@ -35,13 +36,24 @@ from ..run import run as sh, pmap, Scratch
 
 LEVEL = "exploration"
 FIND = os.path.join(VERIF, "findings", "C07")
+K_BLOCK = "variant-before-block|if-condition-ends-with-enum-variant"
+ENDS_WITH_VARIANT = re.compile(r"(^|[ (])Color\.[A-Z]\w*$")
 
 ARITH = ["+", "-", "*", "/", "%"]
 ORD = ["<", "<=", ">", ">="]
 EQ = ["==", "!="]
 LOGIC = ["and", "or"]
 ALL_OPS = ARITH + EQ + ORD + LOGIC          # the 13 binary operators
-KINDS = ["lit", "var", "field", "tidx", "call", "un"]
+KINDS = ["lit", "var", "field", "tidx", "call", "un", "cfield", "nfield", "ctidx", "sfield", "enum", "at", "ucall"]
+# operand kinds: literal, variable, field access p.x, tuple index t.0, parenthesised call (f a b), unary-applied operand,
+# field of a call result (mk 3).y, nested field o.p.x, tuple index of a call result (mk2 1).3, field of a struct literal
+# P { .. }.x, enum variant Color.Red, array read (at arr 1), call taking a union construction (uv U1.V0 { a0: 3 })
+AVAIL = {"int": ["lit", "var", "field", "tidx", "call", "un", "cfield", "nfield", "ctidx", "sfield", "at", "ucall"],
+         # (a tuple index on a CALL RESULT is only used with int components: the type checker types `(mk2 1).2` as int
+         #  whatever the component is - in either spelling, so it is not a notation matter)
+         "bool": ["lit", "var", "field", "tidx", "call", "un", "cfield", "nfield", "sfield"],
+         "string": ["lit", "var", "field", "tidx", "call", "cfield", "nfield", "sfield"],
+         "Color": ["var", "enum", "call"]}
 
 
 def sigs(op):
@@ -52,7 +64,7 @@ def sigs(op):
     if op in ORD:
         return [("int", "int", "bool")]
     if op in EQ:
-        return [("int", "int", "bool"), ("bool", "bool", "bool"), ("string", "string", "bool")]
+        return [("int", "int", "bool"), ("bool", "bool", "bool"), ("string", "string", "bool"), ("Color", "Color", "bool")]
     return [("bool", "bool", "bool")]
 
 
@@ -60,12 +72,46 @@ def sigs(op):
 VARS = {"a": ("int", 7), "b": ("int", -3), "d": ("int", 12), "c": ("bool", True), "e": ("bool", False),
         "s": ("string", "ab"), "u": ("string", "")}
 FIELDS = {"x": ("int", 5), "y": ("int", -8), "b": ("bool", True), "s": ("string", "pq")}
+OP_FIELDS = {"x": 6, "y": -2, "b": False, "s": "no"}          # o.p
 TUPLE = [("int", 11), ("bool", False), ("string", "tu"), ("int", -4)]
+ARR = [4, 5, 6]
+COLORS = ["Red", "Green", "Blue"]
+COL = "Green"
 FUNCS = {"f2": (["int", "int"], "int"), "g1": (["int"], "bool"), "h1": (["string"], "string"), "k0": ([], "int"),
-         "g2": (["bool", "int"], "int"), "b2": (["bool", "bool"], "bool")}
+         "g2": (["bool", "int"], "int"), "b2": (["bool", "bool"], "bool"),
+         "pick": (["int"], "Color"), "samec": (["Color", "Color"], "bool")}
+SPECIAL_FUNCS = {"at": "int", "uv": "int"}          # built by make_leaf only
 LITS = {"int": [0, 1, 2, 3, 5, 10, -1, -2, -7, 100], "bool": [True, False], "string": ["", "a", "xy", "ab", "q r"]}
 
 HEADER = """struct P { x: int, y: int, b: bool, s: string }
+struct O { p: P, k: int }
+enum Color { Red = 0, Green = 1, Blue = 2 }
+union U1 {
+    V0 { a0: int },
+    V1 { a1: string }
+}
+fn mk(n: int) -> P {
+    return P { x: n, y: (* n 2), b: (> n 2), s: "m" }
+}
+fn mk2(n: int) -> (int, bool, string, int) {
+    return (n, (> n 2), "k", (- 0 n))
+}
+fn uv(w: U1) -> int {
+    match w {
+        V0(m) => { return m.a0 },
+        V1(m) => { return 0 }
+    }
+}
+fn pick(n: int) -> Color {
+    if (> n 1) {
+        return Color.Blue
+    } else {
+        return Color.Red
+    }
+}
+fn samec(c1: Color, c2: Color) -> bool {
+    return (== c1 c2)
+}
 fn f2(m: int, n: int) -> int {
     return (+ (* m 3) n)
 }
@@ -104,6 +150,18 @@ def call_value(name, args):
         return args[1] if args[0] else wrap(0 - args[1])
     if name == "b2":
         return args[0] != args[1]
+    if name == "mk":
+        return {"x": args[0], "y": wrap(args[0] * 2), "b": args[0] > 2, "s": "m"}
+    if name == "mk2":
+        return [args[0], args[0] > 2, "k", wrap(0 - args[0])]
+    if name == "at":
+        return args[0][args[1]]
+    if name == "uv":
+        return args[0]
+    if name == "pick":
+        return ("E", "Blue") if args[0] > 1 else ("E", "Red")
+    if name == "samec":
+        return args[0] == args[1]
     raise ValueError(name)
 
 
@@ -118,11 +176,28 @@ def ev(e, env=None):
     if k == "var":
         if env and e[1] in env:
             return env[e[1]]
-        return VARS[e[1]][1]
+        n = e[1]
+        if n == "p":
+            return dict((f, v) for f, (t, v) in FIELDS.items())
+        if n == "o":
+            return {"p": dict(OP_FIELDS), "k": 9}
+        if n == "t":
+            return [v for t, v in TUPLE]
+        if n == "arr":
+            return list(ARR)
+        if n == "col":
+            return ("E", COL)
+        return VARS[n][1]
     if k == "field":
-        return FIELDS[e[2]][1]
+        return ev(e[1], env)[e[2]]
     if k == "tidx":
-        return TUPLE[e[2]][1]
+        return ev(e[1], env)[e[2]]
+    if k == "structlit":
+        return {"x": e[1], "y": e[2], "b": e[3], "s": e[4]}
+    if k == "enumv":
+        return ("E", e[2])
+    if k == "unionlit":
+        return e[1]
     if k == "call":
         return call_value(e[1], [ev(a, env) for a in e[2]])
     if k == "un":
@@ -175,14 +250,39 @@ def leaf_type(e):
     if k == "str":
         return "string"
     if k == "var":
+        if e[1] == "col":
+            return "Color"
         return VARS[e[1]][0] if e[1] in VARS else None
     if k == "field":
         return FIELDS[e[2]][0]
     if k == "tidx":
         return TUPLE[e[2]][0]
+    if k == "enumv":
+        return "Color"
     if k == "call":
-        return FUNCS[e[1]][1]
+        return SPECIAL_FUNCS[e[1]] if e[1] in SPECIAL_FUNCS else FUNCS[e[1]][1]
     raise ValueError(k)
+
+
+def leaf_kind(e):
+    """operand kind of a leaf (see KINDS)"""
+    k = e[0]
+    if k in ("int", "bool", "str"):
+        return "lit"
+    if k == "field":
+        b = e[1][0]
+        return {"var": "field", "field": "nfield", "call": "cfield", "structlit": "sfield"}[b]
+    if k == "tidx":
+        return "tidx" if e[1][0] == "var" else "ctidx"
+    if k == "enumv":
+        return "enum"
+    if k == "call":
+        return {"at": "at", "uv": "ucall"}.get(e[1], "call")
+    return k
+
+
+POSTFIX_CLASS = {"field": "field", "nfield": "nested-field", "cfield": "field-of-call", "sfield": "field-of-struct-literal",
+                 "tidx": "tuple-index", "ctidx": "tuple-index-of-call", "enum": "enum-variant"}
 
 
 def strlit(s):
@@ -200,9 +300,18 @@ def atom(e):
     if k == "var":
         return e[1]
     if k == "field":
-        return "p.%s" % e[2]
+        return "%s.%s" % (atom(e[1]), e[2])
     if k == "tidx":
-        return "t.%d" % e[2]
+        return "%s.%d" % (atom(e[1]), e[2])
+    if k == "call":
+        # the base of a postfix form: (mk 3) / (mk2 a) - its argument is an atom, printed alike in both spellings
+        return "(" + " ".join([e[1]] + [atom(a) for a in e[2]]) + ")"
+    if k == "structlit":
+        return "P { x: %d, y: %d, b: %s, s: %s }" % (e[1], e[2], "true" if e[3] else "false", strlit(e[4]))
+    if k == "enumv":
+        return "%s.%s" % (e[1], e[2])
+    if k == "unionlit":
+        return "U1.V0 { a0: %d }" % e[1]
     raise ValueError(k)
 
 
@@ -252,12 +361,12 @@ class Infix:
             return sym + inner if neg else sym + " " + inner
         if k == "call":
             return "(" + " ".join([e[1]] + [self.operand(a, False, "arg") for a in e[2]]) + ")"
-        if k in ("field", "tidx") and ctx in ("right", "unary"):
+        if k in ("field", "tidx", "enumv") and ctx in ("right", "unary"):
             if self.substitute:
                 name = "q%d" % len(self.binds)
                 self.binds.append((name, leaf_type(e), e))
                 return name
-            self.classes.add("postfix-after-%s|%s" % ("infix" if ctx == "right" else "unary", "field" if k == "field" else "tuple-index"))
+            self.classes.add("postfix-after-%s|%s" % ("infix" if ctx == "right" else "unary", POSTFIX_CLASS[leaf_kind(e)]))
         return atom(e)
 
 
@@ -280,7 +389,7 @@ def substituted(e):
             return ("un", x[1], operand(x[2], False, "unary"))
         if k == "call":
             return ("call", x[1], [operand(a, False, "arg") for a in x[2]])
-        if k in ("field", "tidx") and ctx in ("right", "unary"):
+        if k in ("field", "tidx", "enumv") and ctx in ("right", "unary"):
             name = "q%d" % len(binds)
             binds.append((name, leaf_type(x), x))
             return ("var", name)
@@ -293,10 +402,8 @@ def used_names(e, out):
     k = e[0]
     if k == "var":
         out.add(e[1])
-    elif k == "field":
-        out.add("p")
-    elif k == "tidx":
-        out.add("t")
+    elif k in ("field", "tidx"):
+        used_names(e[1], out)
     elif k == "bin":
         used_names(e[2], out)
         used_names(e[3], out)
@@ -368,6 +475,12 @@ class Tree:
             out.append("    let p: P = P { x: %d, y: %d, b: %s, s: %s }" % (FIELDS["x"][1], FIELDS["y"][1], fmt(FIELDS["b"][1]), strlit(FIELDS["s"][1])))
         if "t" in used:
             out.append("    let t: (int, bool, string, int) = (%d, %s, %s, %d)" % (TUPLE[0][1], fmt(TUPLE[1][1]), strlit(TUPLE[2][1]), TUPLE[3][1]))
+        if "o" in used:
+            out.append("    let o: O = O { p: P { x: %d, y: %d, b: %s, s: %s }, k: 9 }" % (OP_FIELDS["x"], OP_FIELDS["y"], fmt(OP_FIELDS["b"]), strlit(OP_FIELDS["s"])))
+        if "arr" in used:
+            out.append("    let arr: array<int> = [%s]" % ", ".join(str(v) for v in ARR))
+        if "col" in used:
+            out.append("    let col: Color = Color.%s" % COL)
         for n, t, l in self.binds:
             out.append("    let %s: %s = %s" % (n, t, atom(l)))
         c = self.ctx
@@ -425,7 +538,7 @@ def shape_key(e):
 
     def inner_kind(x):
         k = x[0]
-        return {"int": "lit", "bool": "lit", "str": "lit", "var": "var", "field": "field", "tidx": "tidx", "call": "call", "un": "un", "bin": "bin"}[k]
+        return leaf_kind(x)
     shape = walk(e)
     return (tuple(ops), shape, tuple(kinds))
 
@@ -447,11 +560,31 @@ def program(items, spelling):
 # =====================================================================================================
 def make_leaf(r, ty, kind, depth_for_args=0):
     """a leaf of the given operand kind and type; None when the kind does not exist for the type"""
+    if kind not in AVAIL[ty]:
+        return None
     if kind == "lit":
         v = r.choice(LITS[ty])
         return ("int", v) if ty == "int" else ("bool", v) if ty == "bool" else ("str", v)
     if kind == "var":
+        if ty == "Color":
+            return ("var", "col")
         return ("var", r.choice(sorted(n for n, (t, _) in VARS.items() if t == ty)))
+    if kind in ("cfield", "nfield", "sfield"):
+        f = r.choice(sorted(n for n, (t, _) in FIELDS.items() if t == ty))
+        if kind == "nfield":
+            return ("field", ("field", ("var", "o"), "p"), f)
+        if kind == "cfield":
+            return ("field", ("call", "mk", [r.choice([("int", 1), ("int", 3), ("int", -4), ("var", "a"), ("var", "b")])]), f)
+        return ("field", ("structlit", r.choice([1, 4, -6]), r.choice([2, -9, 13]), r.random() < 0.5, r.choice(["z", "", "lit"])), f)
+    if kind == "ctidx":
+        return ("tidx", ("call", "mk2", [r.choice([("int", 1), ("int", 5), ("int", -2), ("var", "a"), ("var", "d")])]),
+                r.choice([i for i, (t, _) in enumerate(TUPLE) if t == ty]))
+    if kind == "enum":
+        return ("enumv", "Color", r.choice(COLORS))
+    if kind == "at":
+        return ("call", "at", [("var", "arr"), ("int", r.randrange(len(ARR)))])
+    if kind == "ucall":
+        return ("call", "uv", [("unionlit", r.choice([3, -1, 12, 0]))])
     if kind == "field":
         return ("field", ("var", "p"), r.choice(sorted(n for n, (t, _) in FIELDS.items() if t == ty)))
     if kind == "tidx":
@@ -463,19 +596,19 @@ def make_leaf(r, ty, kind, depth_for_args=0):
             if depth_for_args > 0 and r.random() < 0.6:
                 args.append(random_tree(r, pt, depth_for_args - 1))
             else:
-                args.append(make_leaf(r, pt, r.choice(["lit", "var", "var", "field", "tidx"])))
+                args.append(make_leaf(r, pt, r.choice([k for k in AVAIL[pt] if k not in ("un", "call", "ucall")])))
         return ("call", name, args)
     if kind == "un":
         if ty == "string":
             return None
-        inner = make_leaf(r, ty, r.choice(["var", "field", "tidx", "call"]))
+        inner = make_leaf(r, ty, r.choice([k for k in AVAIL[ty] if k not in ("lit", "un")]))
         return ("un", "neg" if ty == "int" else "not", inner)
     raise ValueError(kind)
 
 
 def random_tree(r, ty, depth):
-    if depth <= 0 or r.random() < 0.18:
-        k = r.choice(KINDS)
+    if depth <= 0 or ty == "Color" or r.random() < 0.18:
+        k = r.choice(AVAIL[ty])
         leaf = make_leaf(r, ty, k, depth_for_args=min(depth, 2))
         return leaf if leaf is not None else make_leaf(r, ty, "var")
     x = r.random()
@@ -625,13 +758,11 @@ def enumerate_tuples(r, n_ops, shapes, full_kinds, stats, sample=None):
         lts = leaves_of(ty, [])
         jobs = []
         if full_kinds == "cartesian":
-            for combo in itertools.product(*[[k for k in KINDS if not (k == "un" and t == "string")] for t in lts]):
+            for combo in itertools.product(*[AVAIL[t] for t in lts]):
                 jobs.append((None, None, list(combo)))
         elif full_kinds:
             for pos in range(len(lts)):
-                for kind in KINDS:
-                    if kind == "un" and lts[pos] == "string":
-                        continue
+                for kind in AVAIL[lts[pos]]:
                     jobs.append((pos, kind, None))
         else:
             jobs.append((None, None, None))
@@ -639,10 +770,10 @@ def enumerate_tuples(r, n_ops, shapes, full_kinds, stats, sample=None):
         for pos, kind, fixed in jobs:
             tree = None
             for attempt in range(40):
-                kinds = [r.choice(KINDS if t != "string" else KINDS[:-1]) for t in lts]
+                kinds = [r.choice(AVAIL[t]) for t in lts]
                 if attempt >= 20:
                     # divisors are the usual reason: make the other leaves plain
-                    kinds = [r.choice(["lit", "var"]) for t in lts]
+                    kinds = [r.choice([k for k in ("lit", "var") if k in AVAIL[t]]) for t in lts]
                 if pos is not None:
                     kinds[pos] = kind
                 if fixed is not None:
@@ -660,6 +791,51 @@ def enumerate_tuples(r, n_ops, shapes, full_kinds, stats, sample=None):
             if produced == 1:
                 stats["typed_shapes_covered"] += 1
             yield ops, sname, tree
+
+
+def position_family(r, stats):
+    """every operator x every typing x every operand kind K at the positions the pair/triple enumeration does not
+    fix: K as the operand of a unary operator and K inside a call argument, each as the LEFT and as the RIGHT operand
+    of the operator (the enumerations cover K itself as leftmost / middle / rightmost operand and inside a
+    parenthesised sub-expression)"""
+    wrap_call = {"int": lambda k, o: ("call", "f2", [k, o]), "bool": lambda k, o: ("call", "b2", [o, k]),
+                 "string": lambda k, o: ("call", "h1", [k]), "Color": lambda k, o: ("call", "samec", [o, k])}
+    res_of_call = {"int": "int", "bool": "bool", "string": "string", "Color": "bool"}
+    stats.update({"trees": 0, "dropped": 0})
+    for op in ALL_OPS:
+        for lt, rt, res in sigs(op):
+            for side in ("left", "right"):
+                ty = lt if side == "left" else rt
+                for pos in ("unary", "call-argument"):
+                    # the operand type of the wrapped form must be the operator's operand type
+                    for kty in (["int", "bool", "string", "Color"] if pos == "call-argument" else [ty]):
+                        if pos == "call-argument" and res_of_call[kty] != ty:
+                            continue
+                        if pos == "unary" and ty not in ("int", "bool"):
+                            continue
+                        for kind in AVAIL[kty]:
+                            if kind in ("lit", "un") and pos == "unary":
+                                continue
+                            tree = None
+                            for attempt in range(30):
+                                k = make_leaf(r, kty, kind)
+                                if k is None:
+                                    break
+                                if pos == "unary":
+                                    w = ("un", "neg" if ty == "int" else "not", k)
+                                else:
+                                    other = make_leaf(r, kty, r.choice([x for x in ("lit", "var") if x in AVAIL[kty]]))
+                                    w = wrap_call[kty](k, other)
+                                o = make_leaf(r, rt if side == "left" else lt, r.choice([x for x in ("lit", "var", "enum") if x in AVAIL[rt if side == "left" else lt]]))
+                                cand = ("bin", op, w, o) if side == "left" else ("bin", op, o, w)
+                                if in_discipline(cand) and defined(cand):
+                                    tree = cand
+                                    break
+                            if tree is None:
+                                stats["dropped"] += 1
+                                continue
+                            stats["trees"] += 1
+                            yield tree
 
 
 # =====================================================================================================
@@ -799,6 +975,8 @@ def inline_binds(e, env):
     k = e[0]
     if k == "var" and e[1] in env:
         v = env[e[1]]
+        if isinstance(v, tuple):
+            return ("enumv", "Color", v[1])
         return ("bool", v) if isinstance(v, bool) else ("int", v) if isinstance(v, int) else ("str", v)
     if k == "bin":
         return ("bin", e[1], inline_binds(e[2], env), inline_binds(e[3], env))
@@ -833,6 +1011,8 @@ def shrink(tree, fails, budget=50):
 
     def lit_of(e):
         ty = tree_type(e)
+        if ty not in ("int", "bool", "string"):
+            raise ValueError(ty)
         v = ev(e)
         return ("int", v) if ty == "int" else ("bool", v) if ty == "bool" else ("str", v)
 
@@ -937,13 +1117,21 @@ def run(ctx):
     import sys
     sys.setrecursionlimit(20000)
     ctxs = ["let", "return", "set", "if"]
-    enum_stats = {"pairs": {}, "triples": {}, "triples_mixed_shapes": {}, "random": {"trees": 0}}
+    enum_stats = {"pairs": {}, "positions": {}, "triples": {}, "triples_mixed_shapes": {}, "random": {"trees": 0}}
 
     def stream():
         ci = 0
         for ops, sname, tree in enumerate_tuples(ctx.rng("pairs"), 2, ["left-comb", "right-nested"], True if quick else "cartesian", enum_stats["pairs"]):
             ci += 1
             yield "pair", tree, ctxs[ci % 4]
+        for tree in position_family(ctx.rng("positions"), enum_stats["positions"]):
+            ci += 1
+            yield "position", tree, ctxs[ci % 4]
+        # conditions of `if` that end with an enum variant (the block's brace follows the variant), every run
+        for op in EQ:
+            for left in (("var", "col"), ("enumv", "Color", "Blue"), ("call", "pick", [("int", 2)])):
+                yield "position", ("bin", op, left, ("enumv", "Color", "Red")), "if"
+            yield "position", ("bin", "and", ("var", "c"), ("bin", op, ("var", "col"), ("enumv", "Color", "Green"))), "if"
         if quick:
             gens = [enumerate_tuples(ctx.rng("triples"), 3, list(SHAPES3), False, enum_stats["triples"], sample=300)]
         else:
@@ -1079,12 +1267,22 @@ def run(ctx):
             class set) and their bound variant into the normal batches"""
             normal = []
             pattern = {}
+            todo = []
             for grp, tree, c in chunk:
                 T = Tree(tree, c, origin=grp)
                 S["by_group"][grp] = S["by_group"].get(grp, 0) + 1
                 S["max_size"] = max(S["max_size"], size(tree))
                 if grp == "random":
                     S["max_depth"] = max(S["max_depth"], depth_of(tree))
+                if c == "if" and T.type == "bool" and ENDS_WITH_VARIANT.search(T.infix):
+                    # `if x == Color.Red {`: the condition ends with TypeName.Variant and the block's brace follows - a cause of its
+                    # own (K_BLOCK); the tree itself is judged in the `let` context as well
+                    T.classes = frozenset([K_BLOCK])
+                    todo.append((grp, tree, c, T))
+                    todo.append((grp, tree, "let", Tree(tree, "let", origin=grp)))
+                else:
+                    todo.append((grp, tree, c, T))
+            for grp, tree, c, T in todo:
                 if T.classes:
                     pattern.setdefault(T.classes, []).append(T)
                     ck = ",".join(sorted(T.classes))
@@ -1193,6 +1391,9 @@ def run(ctx):
                           operand_kinds="one-factor: every leaf position x every operand kind, the other leaves random" if quick else
                                         "cartesian: every combination of operand kinds over the three leaves"),
             "triples": tri,
+            "positions_unary_and_call_argument": dict(enum_stats["positions"], exhaustive=True,
+                                                      rule="every operator x typing x side x {operand of unary, call argument} x operand kind"),
+            "operand_kinds": AVAIL,
             "nesting_limit_measured": limit,
             "deep_depths": depths,
             "deep_kinds": DEEP_KINDS,
@@ -1220,6 +1421,10 @@ def write_witnesses():
              ("tuple_index_after_infix", ("bin", "-", ("var", "a"), ("tidx", ("var", "t"), 0))),
              ("field_after_unary", ("un", "not", ("field", ("var", "p"), "b"))),
              ("tuple_index_after_unary", ("un", "neg", ("tidx", ("var", "t"), 3)))]
+    t = Tree(("bin", "==", ("var", "col"), ("enumv", "Color", "Red")), "if")
+    for sp in ("infix", "prefix"):
+        with open(os.path.join(FIND, "enum_variant_before_block_%s.nano" % sp), "w") as f:
+            f.write(program([t], sp))
     for name, tree in cases:
         t = Tree(tree, "let")
         with open(os.path.join(FIND, name + "_infix.nano"), "w") as f:
